@@ -124,7 +124,7 @@ class Run:
             return True
         return self.counterexample(label, model, replay, classify, detail)
 
-    def counterexample(self, label, model, replay, classify, detail=None):
+    def counterexample(self, label, model, replay, classify, detail=None, soft=False):
         role = classify(model) if classify else None
         cex = {'obligation': self.cur.name, 'assertion': label, 'role': role, 'model': model_json(model), 'detail': detail}
         for kf in self.known_findings:
@@ -144,6 +144,9 @@ class Run:
             self.cur.replays += 1
         cex['replay'] = verdict
         json.dump(cex, open(path, 'w'), indent=1, default=str)
+        if soft and verdict.get('reproduced') is not True and verdict.get('mode') != 'none':
+            self.cur.notes.append(f'counterexample for {label} not confirmed natively ({verdict.get("verdict") or verdict.get("error")}): {path}')
+            return None
         if verdict.get('reproduced') is False:
             raise E.Inconclusive(f'counterexample for {label} did not reproduce natively (encoding or model wrong): {path}')
         if verdict.get('reproduced') is None and verdict.get('mode') != 'none':
